@@ -53,14 +53,16 @@ JudgeType(b, x, r) ==
             (IF ~IsErr(x) /\ IsErr(v) /\ r.reok /\ r.reenc = b /\ ~HasRaw(T)
                THEN <<"typed-accepts:" \o r.t>> ELSE <<>>))
 
-JudgeStream(b, w, name) ==
-  LET x == DecItem(b, 1, Len(b)) IN
-  Tag(~w.panic, "Inv.Total.panic:" \o name) \o
-  Tag(w.read <= Len(b), "Inv.Total.reads-past-limit:" \o name) \o
+JudgeStream(b, w) ==
+  LET x == DecItem(b, 1, Len(b))
+      T == TypeOf[w.t]
+      v == IF x.ok THEN View(T, x.v) ELSE Err IN
+  Tag(~w.panic, "Inv.Total.panic:" \o w.n) \o
+  Tag(w.read <= Len(b), "Inv.Total.reads-past-limit:" \o w.n) \o
   (IF w.panic THEN <<>>
-   ELSE Tag(w.ok = x.ok, (IF w.ok THEN "Inv.Canonical.accepts:" ELSE "Inv.Lossless.rejects:") \o name) \o
-        (IF w.ok /\ x.ok THEN Tag(w.val = IfaceVal(x.v), "Inv.Lossless.value:" \o name) \o
-                              Tag(w.read = x.next - 1, "Inv.Total.consumed:" \o name)
+   ELSE Tag(w.ok = ~IsErr(v), (IF w.ok THEN "Inv.Canonical.accepts:" ELSE "Inv.Lossless.rejects:") \o w.n) \o
+        (IF w.ok /\ ~IsErr(v) THEN Tag(NormV(T, w.val) = v, "Inv.Lossless.value:" \o w.n) \o
+                                  Tag(w.read = x.next - 1, "Inv.Total.consumed:" \o w.n)
          ELSE <<>>))
 
 JudgeDecode(e) ==
@@ -79,8 +81,7 @@ JudgeDecode(e) ==
       (IF e.count.panic THEN <<>>
        ELSE Tag(e.count.ok = (cn >= 0), IF e.count.ok THEN "Inv.Canonical.accepts:count" ELSE "Inv.Lossless.rejects:count") \o
             (IF e.count.ok /\ cn >= 0 THEN Tag(e.count.n = cn, "Inv.Lossless.value:count") ELSE <<>>)) \o
-      JudgeStream(b, e.walk, "walk") \o
-      JudgeStream(b, e.sdec, "sdec") \o
+      FlatT([i \in 1..Len(e.streams) |-> JudgeStream(b, e.streams[i])]) \o
       Tag(e.alloc <= AllocBase + AllocPerByte * Len(b), "Inv.Total.alloc")
 
 JudgeEncode(e) ==
